@@ -32,10 +32,27 @@ pub enum Req {
     Unbind,
 }
 
-const FILTERS: [&str; 4] = ["(objectClass=*)", "(&(cn=a*b)(!(sn=\\2a)))", "uid:dn:2.5.13.5:=x", "(|(a>=1)(b<=2)(c~=3))"];
+const SMALL_FILTERS: [&str; 4] = ["(objectClass=*)", "(&(cn=a*b)(!(sn=\\2a)))", "uid:dn:2.5.13.5:=x", "(|(a>=1)(b<=2)(c~=3))"];
+
+/// the four small filters plus big ones: 40 components side by side, negations nested 20 and 60
+/// deep, a substring filter with 20 `any` parts, a 5000-octet assertion value
+fn filter_pool() -> &'static Vec<String> {
+    static POOL: std::sync::OnceLock<Vec<String>> = std::sync::OnceLock::new();
+    POOL.get_or_init(|| {
+        let mut v: Vec<String> = SMALL_FILTERS.iter().map(|s| s.to_string()).collect();
+        v.push(format!("(&{})", (0..40).map(|k| format!("(a{}=v{})", k, k)).collect::<String>()));
+        v.push(format!("(|{})", (0..9).map(|k| format!("(&(a{}=*)(b{}>=1))", k, k)).collect::<String>()));
+        for d in [20usize, 60] {
+            v.push(format!("{}(cn=x){}", "(!".repeat(d), ")".repeat(d)));
+        }
+        v.push(format!("(cn=i{}*f)", (0..20).map(|k| format!("*a{}", k)).collect::<String>()));
+        v.push(format!("(description={})", "q".repeat(5000)));
+        v
+    })
+}
 
 fn filter_model(i: usize) -> Filter {
-    crate::vcore::filter::parse_str(FILTERS[i].as_bytes(), false).expect("filter model")
+    crate::vcore::filter::parse_str(filter_pool()[i].as_bytes(), false).expect("filter model")
 }
 
 fn dns() -> Vec<String> {
@@ -144,7 +161,7 @@ async fn perform(ldap: &mut ldap3::Ldap, r: &Req) -> Result<(), LdapError> {
                 ldap.with_search_options(SearchOptions::new().deref(d).typesonly(*typesonly).sizelimit(*size).timelimit(*time));
             }
             let sc = [Scope::Base, Scope::OneLevel, Scope::Subtree][*scope as usize];
-            ldap.search(base, sc, FILTERS[*filter], attrs.clone()).await.map(|_| ())
+            ldap.search(base, sc, filter_pool()[*filter].as_str(), attrs.clone()).await.map(|_| ())
         }
         Req::Add(dn, attrs) => ldap.add(dn, attrs.iter().map(|(n, vs)| (n.clone(), hset(vs))).collect()).await.map(|_| ()),
         Req::Compare(dn, a, v) => ldap.compare(dn, a, v).await.map(|_| ()),
@@ -336,7 +353,7 @@ fn requests(tier: Tier) -> Vec<Req> {
                             typesonly,
                             size,
                             time: limits[(k * 5) % limits.len()],
-                            filter: k % FILTERS.len(),
+                            filter: k % filter_pool().len(),
                             attrs: attr_lists[(k / 2) % attr_lists.len()].clone(),
                             with_opts: k % 7 != 0,
                         });
@@ -587,6 +604,8 @@ pub fn run(tier: Tier) -> i32 {
     // at every nesting level (string, operation, message)
     let mut lens: Vec<usize> = (0..=300).collect();
     lens.extend(65480..=65560);
+    // sizes between and beyond the classic boundaries (buffer and chunk sizes, powers of two, odd sizes)
+    lens.extend([511usize, 512, 513, 1000, 1023, 1024, 1025, 2047, 2048, 4095, 4096, 4097, 5000, 8191, 8192, 8193, 10000, 16383, 16384, 16385, 20000, 32767, 32768, 32769, 40000, 100000, 131072, 1 << 20]);
     if tier == Tier::Thorough {
         lens.extend(300..=1100);
         lens.extend(16777200..=16777230);
@@ -610,6 +629,35 @@ pub fn run(tier: Tier) -> i32 {
         ];
         for r in &sweep {
             judge_one(&rep, r, &ctl, presets[k % presets.len()], &evals);
+        }
+    });
+    // lane a4: counts — n controls, n attributes, n values, n modifications, n requested
+    // attributes, for every n up to 40 and a few larger ones
+    let counts: Vec<usize> = (0..=40).chain([63, 64, 65, 127, 128, 129, 255, 256, 257, 1000]).collect();
+    par_for(counts.len() as u64, |i| {
+        let n = counts[i as usize];
+        let many_ctl: Vec<(String, bool, Option<Vec<u8>>)> = (0..n).map(|k| (format!("1.2.{}", k), k % 3 == 0, if k % 2 == 0 { Some(vec![k as u8; k % 5]) } else { None })).collect();
+        let names: Vec<String> = (0..n).map(|k| format!("attr{}", k)).collect();
+        let vals: Vec<Vec<u8>> = (0..n).map(|k| format!("v{}", k).into_bytes()).collect();
+        let reqs = vec![
+            (Req::Delete("cn=a".into()), Some(many_ctl.clone())),
+            (Req::Compare("cn=a".into(), "cn".into(), b"v".to_vec()), Some(many_ctl.clone())),
+            (Req::Search { base: "dc=x".into(), scope: 2, deref: 0, typesonly: false, size: 0, time: 0, filter: 1, attrs: names.clone(), with_opts: false }, if n % 2 == 0 { Some(many_ctl.clone()) } else { None }),
+            (Req::Add("cn=a".into(), names.iter().map(|a| (a.clone().into_bytes(), vec![b"x".to_vec()])).collect()), None),
+            (Req::Add("cn=a".into(), vec![(b"member".to_vec(), vals.clone())]), None),
+            (Req::Modify("cn=a".into(), names.iter().enumerate().map(|(k, a)| ((k % 3) as u8, a.clone().into_bytes(), vec![b"y".to_vec()])).collect()), None),
+            (Req::Modify("cn=a".into(), vec![(2, b"member".to_vec(), vals.clone())]), None),
+            (Req::ModDn(format!("{}dc=x", "ou=u,".repeat(n)), "cn=b".into(), false, Some(format!("{}dc=y", "ou=s,".repeat(n)))), None),
+        ];
+        for (r, c) in &reqs {
+            // (an add / modify without any value is refused locally: not a wire case)
+            if n == 0 && matches!(r, Req::Add(_, v) if v.iter().any(|x| x.1.is_empty()) || v.is_empty()) {
+                continue;
+            }
+            if n == 0 && matches!(r, Req::Modify(_, v) if v.iter().any(|x| x.2.is_empty())) {
+                continue;
+            }
+            judge_one(&rep, r, c, presets[n % presets.len()], &evals);
         }
     });
     let lane_a = evals.load(Ordering::Relaxed);
